@@ -5,43 +5,63 @@ open SMGo.Model.ISAVal SMGo.Model.GCM SMGo.Proofs.GCM SMGo.Proofs.ISATouch
 open SMGo.Model.ISA (Reg Opd Instr)
 
 /-- the expected tag of `openAsm` (16 bytes before truncation): GHASH over the additional data and the ciphertext proper -/
-def openTagN (rk nonce ct aad : List Nat) (t : Nat) : List Nat :=
-  let jb := nonce ++ [0, 0, 0, 1]
+def openTagJ (rk jb ct aad : List Nat) (t : Nat) : List Nat :=
   lanes 8 16 (tagN (hKey rk) (ghUpdN (hKey rk) (ghUpdN (hKey rk) 0 aad) (ct.take (ct.length - t))) (unlanes 8 (encB rk jb))
     aad.length (ct.length - t))
 
-/-- what holds when `openAsm` arrives at its verdict (instruction 1775) -/
-structure AtVerdict (g v k rk : List Nat) (t : Nat) (dst nonce ct aad tmp : List Nat) (r0 : Nat) (s : State) : Prop where
+/-- the argument frame of `openAsm`; `cp` = where the input (ciphertext ‖ tag) lies, `r` = the result slot -/
+def openFrame (cp t : Nat) (nonce ct aad : List Nat) (r : Nat) : List (String × Nat) :=
+  [("rk", arg 0), ("tagSize", t), ("dst", arg 1), ("nonce", arg 2), ("nonceLen", nonce.length),
+   ("nonceCap", nonce.length), ("cipher", cp), ("cipherLen", ct.length), ("aData", arg 4), ("aLen", aad.length),
+   ("tmp", arg 5), ("ret1", r)]
+
+theorem openState_frame (g v k rk : List Nat) (t : Nat) (dst nonce ct aad tmp : List Nat) (r0 : Nat) :
+    (openState g v k rk t dst nonce ct aad tmp r0).frame = openFrame 85899345920 t nonce ct aad r0 := rfl
+
+theorem setRet (cp t : Nat) (nonce ct aad : List Nat) (r0 : Nat) (v : Nat) :
+    setSlot (openFrame cp t nonce ct aad r0) "ret1" (fun _ => v) = some (openFrame cp t nonce ct aad v) := by
+  simp [openFrame, setSlot]
+
+/-- what holds when `openAsm` arrives at its verdict (instruction 1775); `inp` = the contents of the input region, `ct` = the input
+    (it lies in the input region, or in the destination buffer: the in-place call) -/
+structure AtVerdictG (fr : List (String × Nat)) (rk : List Nat) (t : Nat) (dst nonce inp ct aad jb : List Nat) (s : State) : Prop where
   pc : PCtx s
   gh : GhCtx (hKey rk) s
   rkp : greg s 15 = 73014444032
-  j0 : vreg s 14 = unlanes 8 (nonce ++ [0, 0, 0, 1])
+  j0 : vreg s 14 = unlanes 8 jb
   acc : vreg s 21 < 2 ^ 128
-  g2 : greg s 2 = orBytes (xorN ((openTagN rk nonce ct aad t).take t) (ct.drop (ct.length - t)))
-  mem : ∃ b, b.length = 32 ∧ s.mem = fmem "cipher" false rk dst nonce ct aad b
-  frame : s.frame = (openState g v k rk t dst nonce ct aad tmp r0).frame
+  g2 : greg s 2 = orBytes (xorN ((openTagJ rk jb ct aad t).take t) (ct.drop (ct.length - t)))
+  mem : ∃ b, b.length = 32 ∧ s.mem = fmem "cipher" false rk dst nonce inp aad b
+  frame : s.frame = fr
+
+/-- the same for the entry state `openState` (input in its own region) -/
+abbrev AtVerdict (g v k rk : List Nat) (t : Nat) (dst nonce ct aad tmp : List Nat) (r0 : Nat) (jb : List Nat) (s : State) : Prop :=
+  AtVerdictG (openState g v k rk t dst nonce ct aad tmp r0).frame rk t dst nonce ct ct aad jb s
 
 set_option maxHeartbeats 4000000 in
 set_option maxRecDepth 100000 in
-/-- **`openAsm` up to the verdict, 12-byte nonce**: the OR of the differences between the expected and the received tag is in `G2` -/
-theorem open_verdict12 (g v k rk : List Nat) (t : Nat) (dst nonce ct aad tmp : List Nat) (r0 : Nat)
-    (hG : g.length = 16) (hV : v.length = 32) (hK : k.length = 8) (hrk : rk.length = 32) (hrkb : ∀ x ∈ rk, x < 2 ^ 32)
-    (hn : nonce.length = 12) (hnb : ∀ x ∈ nonce, x < 2 ^ 8) (hab : ∀ x ∈ aad, x < 2 ^ 8) (hall : aad.length < 2 ^ 32)
-    (hcb : ∀ x ∈ ct, x < 2 ^ 8) (hcl : ct.length < 2 ^ 32) (ht : t ≤ 16) (htc : t ≤ ct.length) (htmp : tmp.length = 32) :
-    ∃ s N, N ≤ 34 * (aad.length / 16) + 34 * ((ct.length - t) / 16) + 2200 ∧
-      Reach openR 0 (openState g v k rk t dst nonce ct aad tmp r0) 1775 s N ∧ AtVerdict g v k rk t dst nonce ct aad tmp r0 s := by
-  obtain ⟨s5, N5, hN5, r5, ap, hf5⟩ := open_prefix12 g v k rk t dst nonce ct aad tmp r0 hG hV hK hrk hrkb hn hnb hab hall htmp
+/-- **`openAsm` from the end of the common prefix to the verdict**: the OR of the differences between the expected and the received
+    tag is in `G2`; `jb` = the pre-counter block the prefix has left in VzJ0 -/
+theorem open_verdict_gen (rk : List Nat) (t : Nat) (dst nonce inp ct aad : List Nat) (cp r0 : Nat)
+    (hrk : rk.length = 32) (hnl : nonce.length < 2 ^ 32) (hall : aad.length < 2 ^ 32)
+    (hcb : ∀ x ∈ ct, x < 2 ^ 8) (hcl : ct.length < 2 ^ 32) (ht : t ≤ 16) (htc : t ≤ ct.length)
+    (hct : ∀ b, b.length = 32 → DataAt (fmem "cipher" false rk dst nonce inp aad b) cp ct) (hcp : cp + ct.length < 2 ^ 63)
+    (jb : List Nat) (s5 : State)
+    (ap : AfterPre (fun b => fmem "cipher" false rk dst nonce inp aad b) rk nonce aad jb 81604378624 94489280512 90194313216 s5)
+    (hf5 : s5.frame = openFrame cp t nonce ct aad r0) :
+    ∃ s N, N ≤ 34 * ((ct.length - t) / 16) + 700 ∧
+      Reach openR 1499 s5 1775 s N ∧ AtVerdictG (openFrame cp t nonce ct aad r0) rk t dst nonce inp ct aad jb s := by
   obtain ⟨b5, hb5, hm5⟩ := ap.mem
   have os := open_slices'
   obtain ⟨nC, hnC⟩ : ∃ nC, nC = ct.length - t := ⟨_, rfl⟩
-  have fC : lookup s5.frame "cipher" = some 85899345920 := by rw [hf5]; simp [openState, mkState, lookup]; rfl
-  have fCl : lookup s5.frame "cipherLen" = some ct.length := by rw [hf5]; simp [openState, mkState, lookup]
-  have fTs : lookup s5.frame "tagSize" = some t := by rw [hf5]; simp [openState, mkState, lookup]
-  have fTmp : lookup s5.frame "tmp" = some 94489280512 := by rw [hf5]; simp [openState, mkState, lookup]; rfl
-  have fAl : lookup s5.frame "aLen" = some aad.length := by rw [hf5]; simp [openState, mkState, lookup]
+  have fC : lookup s5.frame "cipher" = some cp := by rw [hf5]; simp [openFrame, lookup]
+  have fCl : lookup s5.frame "cipherLen" = some ct.length := by rw [hf5]; simp [openFrame, lookup]
+  have fTs : lookup s5.frame "tagSize" = some t := by rw [hf5]; simp [openFrame, lookup]
+  have fTmp : lookup s5.frame "tmp" = some 94489280512 := by rw [hf5]; simp [openFrame, lookup]; rfl
+  have fAl : lookup s5.frame "aLen" = some aad.length := by rw [hf5]; simp [openFrame, lookup]
   -- CalculateSMid
-  obtain ⟨s6, N6, b6, hN6, r6, m6, hb6, p6, g6, v621, lt621, k6⟩ := open_sMid s5 ap.pc (hKey rk) ap.gh rk dst nonce ct aad t b5 hb5 hm5 fC fCl fTs fTmp
-    hrk (by omega) hall htc hcl hcb _ ap.tag (by rw [← ap.tag]; exact ap.taglt)
+  obtain ⟨s6, N6, b6, hN6, r6, m6, hb6, p6, g6, v621, lt621, k6⟩ := open_sMid s5 ap.pc (hKey rk) ap.gh rk dst nonce inp ct aad cp t b5 hb5 hm5 fC fCl fTs fTmp
+    hrk hnl hall htc hcl hcb hct hcp _ ap.tag (by rw [← ap.tag]; exact ap.taglt)
   rw [← hnC] at v621 hN6
   have hf6 : s6.frame = s5.frame := k6.frame
   -- the arguments of CalculateSPost
@@ -115,24 +135,24 @@ theorem open_verdict12 (g v k rk : List Nat) (t : Nat) (dst nonce ct aad tmp : L
     rw [greg_setGreg_ne p1 9 _ 7 (by decide)]; exact greg_setGreg_eq s6 7 _ (by rw [hG6]; decide)
   -- CalculateSPost, the expected tag goes to tmp+16
   have hsplit6 : b6 = b6.take 16 ++ b6.drop 16 := (List.take_append_drop 16 b6).symm
-  have hm7 : p7.mem = M2o rk dst nonce ct aad (b6.drop 16) (b6.take 16) := by
+  have hm7 : p7.mem = M2o rk dst nonce inp aad (b6.drop 16) (b6.take 16) := by
     show s6.mem = _
     unfold M2o; rw [← hsplit6]; exact m6
-  have htm : unlanes 8 (encB rk (nonce ++ [0, 0, 0, 1])) < 2 ^ 128 := encB_lt _ _
+  have htm : unlanes 8 (encB rk (jb)) < 2 ^ 128 := encB_lt _ _
   obtain ⟨s8, N8, tc8, hN8, r8, m8, htc8, k8, lt821⟩ := sPost_reach openR 1653 0 9942 9968 9994 10022 10048 (Or.inr rfl) os.sPost
     (label_findPc open_labels (name := "tag.copy8") (by decide)) (label_findPc open_labels (name := "tag.copy4") (by decide))
     (label_findPc open_labels (name := "tag.copy2") (by decide)) (label_findPc open_labels (name := "tag.copy1") (by decide))
     (label_findPc open_labels (name := "tag.copyEnd") (by decide))
-    (M2o rk dst nonce ct aad) (94489280512 + 16) 16 94489280512 16 (by decide) (mem2o rk dst nonce ct aad) (by decide) (by decide)
+    (M2o rk dst nonce inp aad) (94489280512 + 16) 16 94489280512 16 (by decide) (mem2o rk dst nonce inp aad) (by decide) (by decide)
     p7 (hKey rk) (g6.of_keepsM kp (by decide)) (kp.syms.trans p6.syms) (b6.drop 16) (b6.take 16) (by rw [List.length_drop, hb6])
     (by rw [List.length_take, hb6]; rfl) hm7 aad.length nC t 0 (ghUpdN (hKey rk) (ghUpdN (hKey rk) 0 aad) (ct.take nC))
-    (unlanes 8 (encB rk (nonce ++ [0, 0, 0, 1]))) g77 g79 (by omega) (by omega)
+    (unlanes 8 (encB rk (jb))) g77 g79 (by omega) (by omega)
     g70 g714 ht (by omega) g76 (by rw [kp.v 21 (by decide)]; exact v621) (by rw [← v621]; exact lt621)
     (by rw [kp.v 15 (by decide), k6.v 15 (by decide)]; exact ap.tmask) htm
   -- the expected tag and what follows it in the block
-  let T := lanes 8 16 (tagN (hKey rk) (ghUpdN (hKey rk) (ghUpdN (hKey rk) 0 aad) (ct.take nC)) (unlanes 8 (encB rk (nonce ++ [0, 0, 0, 1])))
+  let T := lanes 8 16 (tagN (hKey rk) (ghUpdN (hKey rk) (ghUpdN (hKey rk) 0 aad) (ct.take nC)) (unlanes 8 (encB rk (jb)))
     aad.length nC)
-  have hT : openTagN rk nonce ct aad t = T := by unfold openTagN; rw [← hnC]
+  have hT : openTagJ rk jb ct aad t = T := by unfold openTagJ; rw [← hnC]
   let e8 := spliceAt (b6.drop 16) 0 (T.take t)
   have he8 : e8.length = 16 := by
     show (spliceAt _ 0 _).length = 16
@@ -149,7 +169,7 @@ theorem open_verdict12 (g v k rk : List Nat) (t : Nat) (dst nonce ct aad tmp : L
   have y2 := a_addq_imm q1 16 0 (by omega)
   let q2 := setFlags (setGreg q1 0 (addF 8 (greg q1 0) (imm64 16)).1) (addF 8 (greg q1 0) (imm64 16)).2
   have hGq2 : q2.gpr.length = 16 := (lenG_sf q1 0 _ _).trans hGq1
-  let q3 := setGreg q2 10 85899345920
+  let q3 := setGreg q2 10 cp
   let q4 := setGreg q3 9 ct.length
   let q5 := setGreg q4 14 t
   have hGq5 : q5.gpr.length = 16 := by simp [q5, q4, q3]; exact hGq2
@@ -164,16 +184,16 @@ theorem open_verdict12 (g v k rk : List Nat) (t : Nat) (dst nonce ct aad tmp : L
   have e69 : greg q6 9 = nC := by
     show greg (setFlags (setGreg q5 9 _) _) 9 = _
     rw [greg_setFlags, greg_setGreg_eq q5 9 _ (by omega)]
-  have e610 : greg q6 10 = 85899345920 := by
+  have e610 : greg q6 10 = cp := by
     show greg (setFlags (setGreg q5 9 _) _) 10 = _
     rw [greg_setFlags, greg_setGreg_ne q5 9 _ 10 (by decide)]
     show greg (setGreg q4 14 _) 10 = _
     rw [greg_setGreg_ne q4 14 _ 10 (by decide)]
     show greg (setGreg q3 9 _) 10 = _
     rw [greg_setGreg_ne q3 9 _ 10 (by decide)]; exact greg_setGreg_eq q2 10 _ (by rw [hGq2]; decide)
-  have y7 := a_addq_rr q6 9 10 (by omega) (by omega) (by rw [e69]; omega) (by rw [e610]; decide)
+  have y7 := a_addq_rr q6 9 10 (by omega) (by omega) (by rw [e69]; omega) (by rw [e610]; omega)
   rw [e69, e610, Nat.mod_eq_of_lt (by omega)] at y7
-  let q7 := setFlags (setGreg q6 10 (85899345920 + nC)) (addF 8 85899345920 nC).2
+  let q7 := setFlags (setGreg q6 10 (cp + nC)) (addF 8 cp nC).2
   have hxq : execList openCmpArgsCode s8 = .ok q7 := by
     apply exec_step (a_movq_frame s8 "tmp" 104 0 _ (by rw [hf8]; exact fTmp) (by rw [hG8]; decide))
     apply exec_step y2
@@ -198,7 +218,7 @@ theorem open_verdict12 (g v k rk : List Nat) (t : Nat) (dst nonce ct aad tmp : L
     rw [greg_setGreg_ne q2 10 _ m h10]
     show greg (setFlags (setGreg q1 0 _) _) m = _
     rw [greg_setFlags, greg_setGreg_ne q1 0 _ m h0]; exact greg_setGreg_ne s8 0 _ m h0
-  have e710 : greg q7 10 = 85899345920 + nC := by
+  have e710 : greg q7 10 = cp + nC := by
     show greg (setFlags (setGreg q6 10 _) _) 10 = _
     rw [greg_setFlags, greg_setGreg_eq q6 10 _ (by omega)]
   have e714 : greg q7 14 = t := by
@@ -220,12 +240,12 @@ theorem open_verdict12 (g v k rk : List Nat) (t : Nat) (dst nonce ct aad tmp : L
     show greg (setFlags (setGreg q1 0 _) _) 0 = _
     rw [greg_setFlags, greg_setGreg_eq q1 0 _ (by omega), addF_fst, greg_setGreg_eq s8 0 _ (by omega), imm64_16]
   -- constantTimeCompare
-  have hx : ∀ e, e.length = 16 → DataAt (M2o rk dst nonce ct aad e tc8) (85899345920 + nC) (ct.drop nC) := by
+  have hx : ∀ e, e.length = 16 → DataAt (M2o rk dst nonce inp aad e tc8) (cp + nC) (ct.drop nC) := by
     intro e _
-    exact DataAt.drop (fun off n hn => fmem_read_inp "cipher" false rk dst nonce ct aad _ off n hn (by omega)) nC (by omega)
+    exact DataAt.drop (hct _ (by rw [List.length_append, htc8]; omega)) nC (by omega)
   obtain ⟨s9, N9, e9, hN9, r9, m9, he9, g92, k9⟩ := ctCmp_reach openR 1740 os.cmp (label_findPc open_labels (name := "cmp.fastCmp") (by decide))
     (label_findPc open_labels (name := "cmp.slowCmp") (by decide)) (label_findPc open_labels (name := "cmp.cmpDone") (by decide))
-    (fun e => M2o rk dst nonce ct aad e tc8) (94489280512 + 16) ((mem2o rk dst nonce ct aad).bufD tc8 htc8) (ct.drop nC) (85899345920 + nC) hx
+    (fun e => M2o rk dst nonce inp aad e tc8) (94489280512 + 16) ((mem2o rk dst nonce inp aad).bufD tc8 htc8) (ct.drop nC) (cp + nC) hx
     (fun b hb => hcb b (List.mem_of_mem_drop hb)) (by rw [List.length_drop]; omega) (by decide) q7
     ((lenG_sf q6 10 _ _).trans hGq6) e8 he8 m8 t e714 ht (by rw [List.length_drop]; omega) e710 e70
     (by rw [he8t]; exact fun b hb => mem_lanes_lt 8 16 _ b (List.mem_of_mem_take hb))
@@ -236,12 +256,24 @@ theorem open_verdict12 (g v k rk : List Nat) (t : Nat) (dst nonce ct aad tmp : L
           simp only [List.mem_cons, List.not_mem_nil, or_false] at hm; subst hm
           exact restq 15 (by decide) (by decide) (by decide) (by decide)), fun _ _ => rfl, fun _ h => (by cases h), rfl, rfl⟩ :
           KeepsM [15] sPostKeepV [] s8 q7).trans ((k9.toM sPostKeepV []).mono (by decide) (fun _ h => h) (fun _ h => h)))
-  refine ⟨s9, N5 + N6 + 7 + N8 + 7 + N9, by omega, (((((r5.trans r6).trans rp).trans r8).trans rq).trans r9).cast rfl rfl, ?_⟩
+  refine ⟨s9, N6 + 7 + N8 + 7 + N9, by omega, ((((r6.trans rp).trans r8).trans rq).trans r9).cast rfl rfl, ?_⟩
   refine ⟨p6.of_keepsM kAll (by decide), g6.of_keepsM kAll (by decide), ?_, ?_, ?_, ?_, ⟨tc8 ++ e9, by rw [List.length_append, htc8, he9], m9⟩, ?_⟩
   · rw [kAll.g 15 (by decide), k6.g 15 (by decide)]; exact ap.rkp
   · rw [kAll.v 14 (by decide), k6.v 14 (by decide)]; exact ap.j0
   · rw [vreg_of_vec k9.vec 21]; show vreg s8 21 < _; exact lt821
   · rw [g92, he8t, hT, ← hnC]
   · rw [k9.frame]; show s8.frame = _; rw [hf8]; exact hf5
+
+/-- **`openAsm` from the end of the common prefix to the verdict**, input in its own region -/
+theorem open_verdict_after (g v k rk : List Nat) (t : Nat) (dst nonce ct aad tmp : List Nat) (r0 : Nat)
+    (hrk : rk.length = 32) (hnl : nonce.length < 2 ^ 32) (hall : aad.length < 2 ^ 32)
+    (hcb : ∀ x ∈ ct, x < 2 ^ 8) (hcl : ct.length < 2 ^ 32) (ht : t ≤ 16) (htc : t ≤ ct.length)
+    (jb : List Nat) (s5 : State)
+    (ap : AfterPre (fun b => fmem "cipher" false rk dst nonce ct aad b) rk nonce aad jb 81604378624 94489280512 90194313216 s5)
+    (hf5 : s5.frame = (openState g v k rk t dst nonce ct aad tmp r0).frame) :
+    ∃ s N, N ≤ 34 * ((ct.length - t) / 16) + 700 ∧
+      Reach openR 1499 s5 1775 s N ∧ AtVerdict g v k rk t dst nonce ct aad tmp r0 jb s :=
+  open_verdict_gen rk t dst nonce ct ct aad 85899345920 r0 hrk hnl hall hcb hcl ht htc
+    (fun b _ off n hn => fmem_read_inp "cipher" false rk dst nonce ct aad b off n hn (by omega)) (by omega) jb s5 ap hf5
 
 end SMGo.Proofs.ISAVal
